@@ -72,6 +72,12 @@ CLAIMED["C19"] = dict(
     text="Seeded configurations (block/forbidden x list contents x file/directory/proxy/redirect routes x cache on/off x threads) and clients from chosen addresses sending keep-alive request sequences with X-Forwarded-For absent or naming listed/unlisted addresses. Oracle: listed peer in block mode never receives a byte; listed peer or listed forwarded origin in forbidden mode gets 403 and never the route's content whatever headers it sends; all-unlisted clients are served the exact file / directory file / upstream response / redirect.",
     note="Trusted: humsim TCP (peer addresses are whatever the harness chooses); real std::fs on a scratch directory; a listed intermediate forwarding entry may be refused or served.")
 
+CLAIMED["C20"] = dict(
+    level="exploration", design="§6 C20",
+    technique="deterministic simulation: the real App::run with a shutdown receiver under the humsim scheduler, 0..16 connections scripted into chosen states at the virtual instant of the signal, pools incl. fully occupied ones, rendezvous and unbounded channels, unspecified bind addresses with the strict-connect knob, rebind after return",
+    text="Seeded traffic states at the instant of the signal (just connected, idle keep-alive, half-sent request, handler running 5 ms / 2 s, 150 KB response to a 512-byte-window reader, WebSocket open), signal before run / before the first connection / with traffic / with the pool occupied. Oracle: run returns Ok within 1 virtual second of the signal, the address can be bound again, a response that started arrives completely, requests fully sent >= 100 virtual ms before the signal are answered (detached workers keep running in the simulation).",
+    note="Trusted: humsim scheduler/TCP/clock; threaded runtime only in this check.")
+
 NA = {
     "C05": "pure function wildcard_match(&str,&str)->bool: no schedule, clock, I/O or fault in the statement; deciding it is exhaustive input enumeration, not simulation (DESIGN §7)",
     "C06": "function of (directory tree, request path); no schedule, clock or fault in the statement and no file-system seam its clauses would use (DESIGN §7)",
